@@ -143,10 +143,35 @@ def chk_pts(case):
     return bad
 
 
+def chk_seq(case):
+    """the same statement one level up, where the pipeline asks for bit vectors: OpticalMap.getSequence (whole map, or the window [start, end] of
+    refine), on both strands - the reverse strand reads the same bits backwards"""
+    from src.correlation.sequence_generator import SequenceGenerator
+    from src.correlation.optical_map import OpticalMap
+    pos, res, start, end, radius, reverse = case
+    try:
+        m = OpticalMap(1, max(pos) + 1, list(pos))
+        out = [int(x) for x in (m.getSequence(SequenceGenerator(res, radius), reverse, start, end) if end is not None or start != 0
+                                else m.getSequence(SequenceGenerator(res, radius), reverse))]
+    except Exception as e:
+        return [f'exception:{type(e).__name__}']
+    if reverse:
+        out = out[::-1]
+    has = lambda k: any(start + k * res <= p < start + (k + 1) * res for p in pos)
+    for i, bit in enumerate(out):
+        want = 1 if any(has(j) for j in range(max(0, i - radius), min(len(out), i + radius + 1))) else 0
+        if bit != want:
+            return ['bit_set_iff_a_label_lies_in_a_bin_within_the_blur_radius_relative_to_start']
+    end_eff = end or pos[-1]
+    if any(start <= p <= end_eff and not p < start + len(out) * res for p in pos):
+        return ['labels_between_start_and_end_are_covered']
+    return []
+
+
 CHECKS = {'pts': (chk_pts, 'src/correlation/sequence_generator.py::SequenceGenerator.positionsToSequence'),
           'vec': (chk_vectorise, V + 'vectorisePositions'), 'blur': (chk_blur, V + 'blur'),
           'trgp': (chk_trgp, OM + 'toRelativeGenomicPositions'), 'sel': (chk_select, PS),
-          'create': (chk_create, OM + 'CorrelationResult.createPeaks')}
+          'create': (chk_create, OM + 'CorrelationResult.createPeaks'), 'seq': (chk_seq, OM + 'OpticalMap.getSequence')}
 
 
 def run_chunk(cases):
@@ -185,6 +210,9 @@ def all_cases(tier, seed):
                     for end in (None, 5, 8, 12):
                         for radius in (0, 1, 2):
                             cs.append(('pts', (pos, res, start, end, radius)))
+                            if start >= 0 and radius < 2:
+                                for reverse in (False, True):
+                                    cs.append(('seq', (pos, res, start, end, radius, reverse)))
     rnd = random.Random(seed)
     for _ in range(500 if tier == 'quick' else 5000):
         n = rnd.randint(1, 25)
@@ -209,7 +237,8 @@ def bounded(repo, tier, seed):
     return result(sum(r[0] for r in res), sum(r[1] for r in res),
                   "exhaustive small cases per function: vectorisePositions (label lists of <=3 labels on 0..9 x resolution 1-4 x start x end incl. "
                   "None/0/before-last), blur (all bit vectors up to length %d x radius 0-3), toRelativeGenomicPositions (bins 0-5 x resolution 1-8 x start), "
-                  "selectPeaks (peak score lists with ties x count 0-5), createPeaks (height vectors over 4 values with ties x peaksCount); "
+                  "selectPeaks (peak score lists with ties x count 0-5), createPeaks (height vectors over 4 values with ties x peaksCount), OpticalMap.getSequence "
+                  "(the positionsToSequence lattice with start >= 0 - a window start ON a label included - on both strands); "
                   "plus random larger label lists; counts per function: %s" % (8 if tier == 'quick' else 11, counts),
                   [dict(kind=k, case=c) for k, c in (cs[10], cs[len(cs) // 2], cs[-1])], list(viol.values())[:5],
                   exhaustive=True, bounds="see rule")
